@@ -125,8 +125,9 @@ def run(ctx):
         if l is loop:
             ctx.ok('V2', 'the event loop itself (`while True`), bounded per iteration by V1/V2', ctx.site(fi, l))
             continue
-        if not r['ok'] and fi.qual == 'netlink.NetlinkProtocol.send_recv' and r['shape'].startswith('shrink'):
-            ctx.ok('V2', 'loop `%s` in %s: shrink shape over a kernel reply (trusted input, assumption)' % (
+        if not r['ok'] and fi.qual == 'netlink.NetlinkProtocol.send_recv' and r['shape'].startswith(('shrink', 'cursor')) \
+                and all('no progress fact' in p_ for p_ in r['problems']):
+            ctx.ok('V2', 'loop `%s` in %s: walk over a kernel reply advancing by nlmsg_len (trusted input, assumption)' % (
                 desc, fi.qual), ctx.site(fi, l))
             continue
         if r['ok']:
